@@ -32,6 +32,20 @@ def regenerate(ctx):
     pass
 
 
+def dedup_equality_test_present():
+    """the repaired coerce_hint_any uses a hit of the representation-keyed table only if it == the hint asked about (Dedup.v:
+    dedup_checked); without that test the model is dedup_unchecked, which the theorems refute"""
+    import ast
+    src = open(os.path.join(REPO, 'beartype/_check/convert/_convcoerce.py')).read()
+    f = next((n for n in ast.walk(ast.parse(src)) if isinstance(n, ast.FunctionDef) and n.name == 'coerce_hint_any'), None)
+    if f is None:
+        return False
+    uses_table = any(isinstance(n, ast.Attribute) and n.attr == 'cache_or_get_cached_value' for n in ast.walk(f))
+    compares = any(isinstance(n, ast.Compare) and any(isinstance(o, ast.Eq) for o in n.ops) and
+                   {x.id for x in [n.left] + n.comparators if isinstance(x, ast.Name)} >= {'hint'} for n in ast.walk(f))
+    return compares or not uses_table
+
+
 def cache_sites():
     """(decorator, file, function) for every memoising decorator application under beartype/"""
     out = []
@@ -271,6 +285,11 @@ def run(ctx):
                     if ctx.report(shape, {'case': case, 'index': i, 'op': op, 'after_history': a, 'fresh': b},
                                   'an answer after a history differs from the answer of a pristine interpreter') == 'violation':
                         failures += 1
+    ctx.extra['dedup_equality_test_in_source'] = dedup_equality_test_present()
+    if not ctx.extra['dedup_equality_test_in_source'] and not failures:
+        ctx.broken('translator/dedup_equality_test: coerce_hint_any substitutes the hint found under the same representation without '
+                   'comparing it with the hint asked about (the model proved invisible is dedup_checked)', '', shape={'broken': 'dedup_equality_test'})
+        failures += 1
     if id_sites != ID_SITES_EXPECTED and not failures:
         ctx.broken('translator/cache_sites: the set of identifier-keyed memoisation sites changed (the pinning argument of '
                    'C14_cached_by_id_invisible_when_pinned was made for TypeHint.__eq__ and TypeHint.is_subhint only)',
